@@ -18,6 +18,12 @@ Record gcase := GC {
   i_moved : Z;                     (* elements whose final address differs from the address at construction *)
   i_bad : Z }.                     (* constructions at an already used address + failed re-reads of own elements *)
 
+(* compact literals (Coq parses one big numeral much faster than a long list): the little-endian digits of n in the given base *)
+Fixpoint dec (len : nat) (base n : Z) : list Z :=
+  match len with O => [] | S l => (n mod base) :: dec l base (n / base) end.
+(* a trace packed as digits tid * 16 + site in base 256 *)
+Definition dec_trace (len : nat) (n : Z) : list (Z * Z) := map (fun x => (x / 16, x mod 16)) (dec len 256 n).
+
 (* ------------------------------------------------------------------------------------------------ the property, on the implementation's output *)
 Fixpoint count_z (x : Z) (l : list Z) : Z :=
   match l with [] => 0 | y :: r => (if x =? y then 1 else 0) + count_z x r end.
